@@ -319,20 +319,6 @@ theorem rtOf_first_match (m : KMaps) (i : RouteIn) (dom : List Bool) (wan : Bool
     (by rw [hm]; exact (installGen_installed start _ _ m0 h.rulesFit h.triesFit).with_domain dm)
     h.triesWF pktOK hdom h.entriesOK _ hu
 
-/-- the entry a new LAN TCP connection leaves behind is a tracked one -/
-theorem lan_new_tcp_tracked (rt : RouteIn → Int) (w : World) (s : Skb) (l2 : Bool) (p : Pkt)
-    (hp : parsePacket s.raw l2 = .pkt p) (ht : p.l4proto = IPPROTO_TCP) (hs : p.syn = true) (ha : p.ack = false)
-    (hr : 0 ≤ rt (lanRouteIn s p)) (hc : connRoom w p.tuples.five) :
-    Tracked (lanIngress rt w s l2).1 p.tuples.five (unpackRoute (rt (lanRouteIn s p))) := by
-  rw [lanIngress_pkt rt w s l2 p hp, lanIngressPkt_tcp_syn rt w s l2 p ht hs ha,
-    markTcpSeen_syn_room w p.tuples.five false (p.fin || p.rst) { dscp := p.tuples.dscp } hc]
-  have hl : alookup ({ w with conn := aerase w.conn p.tuples.five ++
-      [(p.tuples.five, newConnState false w.now { dscp := p.tuples.dscp })] } : World).conn p.tuples.five =
-      some (newConnState false w.now { dscp := p.tuples.dscp }) := alookup_erase_append_self _ _ _
-  have hsl : (decide (p.l4proto = IPPROTO_UDP) && shortLivedUdp p.tuples.five) = false := by
-    rw [ht]; rfl
-  exact ⟨_, lanRouteNew_conn rt _ s l2 p _ (lanLocalSocket_tcp_syn _ s p ht hs ha) hr hsl hl, by simp, rfl, rfl⟩
-
 /-- an event whose rule program is the one installed in the maps `x.1` at that moment -/
 def installedEvent (x : KMaps × (World → World) × Hook × Skb × Bool) : Event :=
   ⟨rtOf x.1, x.2.1, x.2.2.1, x.2.2.2.1, x.2.2.2.2⟩
@@ -589,10 +575,84 @@ theorem first_match_decision_is_sticky (m : KMaps) (w : World) (s : Skb) (l2 : B
     Tracked (run (lanIngress (rtOf m) w s l2).1 evs) p.tuples.five d := by
   intro d
   obtain ⟨h0, hd⟩ := rtOf_first_match m (lanRouteIn s p) dom false rules fb ubm rfl (lan_pktOK s l2 p hb hlin hp) h
-  have htr := lan_new_tcp_tracked (rtOf m) w s l2 p hp ht hs ha h0 hc
+  have htr := lan_new_tcp_becomes_tracked (rtOf m) w s l2 p hp ht hs ha h0 hc
   rw [hd] at htr
   have hl4 : p.tuples.five.l4 = IPPROTO_TCP := by rw [parsePacket_l4 hp, ht]
   exact sticky_decision p.tuples.five d (Or.inl hl4) (shortLived_tcp _ hl4) evs _ henv htr hkeep
+
+/-- … the same for a UDP flow from the LAN, -/
+theorem first_match_decision_is_sticky_lan_udp (m : KMaps) (w : World) (s : Skb) (l2 : Bool) (p : Pkt)
+    (hb : BytesOK s.raw.bytes) (hlin : s.raw.lin ≤ s.raw.bytes.length)
+    (hp : parsePacket s.raw l2 = .pkt p) (ht : p.l4proto = IPPROTO_UDP)
+    (hsl : shortLivedUdp p.tuples.five = false)
+    (hnew : ∀ cs, udpLive w p.tuples.five = some cs → cs.hasRouting = 0 ∧ cs.wanDir = false)
+    (hc : udpLive w p.tuples.five = none → connRoom w p.tuples.five)
+    (hls : lanLocalSocket w s p = false)
+    (rules : List SRule) (fb : C01.Out) (dom : List Bool) (ubm : List Nat)
+    (h : FirstMatchHyps m rules fb (pktOf (lanRouteIn s p) dom) false ubm)
+    (evs : List Event) (henv : ∀ e ∈ evs, EnvOk e)
+    (hkeep : KeepsTracking p.tuples.five (lanIngress (rtOf m) w s l2).1 evs) :
+    let d := decOf (dnsAdjust (toPktK (lanRouteIn s p)) (firstMatchS (pktOf (lanRouteIn s p) dom) rules fb false))
+    Follows p.tuples.five d (lanIngress (rtOf m) w s l2).1 evs ∧
+    Tracked (run (lanIngress (rtOf m) w s l2).1 evs) p.tuples.five d := by
+  intro d
+  obtain ⟨h0, hd⟩ := rtOf_first_match m (lanRouteIn s p) dom false rules fb ubm rfl (lan_pktOK s l2 p hb hlin hp) h
+  have htr := lan_new_udp_becomes_tracked (rtOf m) w s l2 p hp ht hsl hnew hc hls h0
+  rw [hd] at htr
+  have hl4 : p.tuples.five.l4 = IPPROTO_UDP := by rw [parsePacket_l4 hp, ht]
+  exact sticky_decision p.tuples.five d (Or.inr hl4) hsl evs _ henv htr hkeep
+
+/-- … for a TCP connection of a local process (unless it is routed plain direct, in which case nothing is
+cached and the rest of the connection passes: `wan_new_tcp_becomes_tracked`, `undecided_tcp_flow_passes`), -/
+theorem first_match_decision_is_sticky_wan_tcp (m : KMaps) (w : World) (s : Skb) (l2 : Bool) (p : Pkt)
+    (hb : BytesOK s.raw.bytes) (hlin : s.raw.lin ≤ s.raw.bytes.length)
+    (hi : s.ingressIf = 0) (hp : parsePacket s.raw l2 = .pkt p) (ht : p.l4proto = IPPROTO_TCP)
+    (hs : p.syn = true) (ha : p.ack = false) (hcp : (pidIsControlPlane w s).isCp = false)
+    (hc : connRoom w p.tuples.five)
+    (rules : List SRule) (fb : C01.Out) (dom : List Bool) (ubm : List Nat)
+    (h : FirstMatchHyps m rules fb
+      (pktOf (wanRouteIn s p true (ppName (pidIsControlPlane w s).pp) (if l2 then p.ethSrc else zeros 6)) dom) true ubm)
+    (evs : List Event) (henv : ∀ e ∈ evs, EnvOk e)
+    (hkeep : KeepsTracking p.tuples.five (wanEgress (rtOf m) w s l2).1 evs) :
+    let i := wanRouteIn s p true (ppName (pidIsControlPlane w s).pp) (if l2 then p.ethSrc else zeros 6)
+    let d := decOf (dnsAdjust (toPktK i) (firstMatchS (pktOf i dom) rules fb false))
+    ¬ (d.ob = OUTBOUND_DIRECT ∧ d.mark = 0 ∧ d.must = 0) →
+    Follows p.tuples.five d (wanEgress (rtOf m) w s l2).1 evs ∧
+    Tracked (run (wanEgress (rtOf m) w s l2).1 evs) p.tuples.five d := by
+  intro i d hnp
+  obtain ⟨_, _, _, hsrc⟩ := parsePacket_ranges s.raw l2 p hb hlin hp
+  obtain ⟨h0, hd⟩ := rtOf_first_match m i dom true rules fb ubm rfl
+    (wan_pktOK s l2 p true _ _ hb hlin hp (wan_tcp_mac_ok l2 p hsrc)) h
+  have htr := (wan_new_tcp_becomes_tracked (rtOf m) w s l2 p hi hp ht hs ha hcp h0 hc).1
+  simp only at htr
+  rw [hd] at htr
+  have hl4 : p.tuples.five.l4 = IPPROTO_TCP := by rw [parsePacket_l4 hp, ht]
+  exact sticky_decision p.tuples.five d (Or.inl hl4) (shortLived_tcp _ hl4) evs _ henv (htr hnp) hkeep
+
+/-- … and for a UDP flow of a local process (plain direct included). -/
+theorem first_match_decision_is_sticky_wan_udp (m : KMaps) (w : World) (s : Skb) (l2 : Bool) (p : Pkt)
+    (hb : BytesOK s.raw.bytes) (hlin : s.raw.lin ≤ s.raw.bytes.length)
+    (hi : s.ingressIf = 0) (hp : parsePacket s.raw l2 = .pkt p) (ht : p.l4proto = IPPROTO_UDP)
+    (hsl : shortLivedUdp p.tuples.five = false) (hcp : (pidIsControlPlane w s).isCp = false)
+    (hnew : ∀ cs, udpLive w p.tuples.five = some cs → cs.hasRouting = 0 ∧ cs.wanDir = false)
+    (hc : udpLive w p.tuples.five = none → connRoom w p.tuples.five)
+    (rules : List SRule) (fb : C01.Out) (dom : List Bool) (ubm : List Nat)
+    (h : FirstMatchHyps m rules fb
+      (pktOf (wanRouteIn s p false (ppName (pidIsControlPlane w s).pp) p.ethSrc) dom) true ubm)
+    (evs : List Event) (henv : ∀ e ∈ evs, EnvOk e)
+    (hkeep : KeepsTracking p.tuples.five (wanEgress (rtOf m) w s l2).1 evs) :
+    let i := wanRouteIn s p false (ppName (pidIsControlPlane w s).pp) p.ethSrc
+    let d := decOf (dnsAdjust (toPktK i) (firstMatchS (pktOf i dom) rules fb false))
+    Follows p.tuples.five d (wanEgress (rtOf m) w s l2).1 evs ∧
+    Tracked (run (wanEgress (rtOf m) w s l2).1 evs) p.tuples.five d := by
+  intro i d
+  obtain ⟨_, _, _, hsrc⟩ := parsePacket_ranges s.raw l2 p hb hlin hp
+  obtain ⟨h0, hd⟩ := rtOf_first_match m i dom true rules fb ubm rfl
+    (wan_pktOK s l2 p false _ _ hb hlin hp hsrc) h
+  have htr := wan_new_udp_becomes_tracked (rtOf m) w s l2 p hi hp ht hsl hcp hnew hc h0
+  rw [hd] at htr
+  have hl4 : p.tuples.five.l4 = IPPROTO_UDP := by rw [parsePacket_l4 hp, ht]
+  exact sticky_decision p.tuples.five d (Or.inr hl4) hsl evs _ henv htr hkeep
 
 /-! ## Non-vacuity -/
 
